@@ -295,7 +295,15 @@ pub fn run_engine(p: &Profile, seed: u64, run: u64, ov: &Override, want_case: bo
     let oracles = p.oracles.clone();
     let res = std::panic::catch_unwind(std::panic::AssertUnwindSafe(|| {
         let mut w = World::new(&cfg, ch, oracles);
+        if std::env::var("QSIM_TRACE").is_ok() {
+            w.sim.core.trace_on.set(true);
+        }
         w.run_steps_seq(&steps);
+        if std::env::var("QSIM_TRACE").is_ok() {
+            for l in w.sim.core.trace.borrow().iter() {
+                eprintln!("{l}");
+            }
+        }
         w
     }));
     match res {
